@@ -392,33 +392,46 @@ def analyse_format_block(M, ses, rep):
         if fmt and tog:
             n += 1
             ctxv, X = tog[0][2], fmt[0][2]
-            d = ex.discr(st, M.sfn(ex, ctxv, X))
+            orig = ex.lazy_child(st, item, ("field", 0), "Stmt", ".0")
+            d = ex.discr(st, M.sfn(ex, ctxv, orig))          # the verdict on the ORIGINAL statement (it has the positions)
             ok = z3.BoolVal(False)
             what = "statement not pushed"
+            semi_src = ex.lazy_tab.get((item.oid, ("field", 1)))
+            same_semi = z3.BoolVal(False)
             if pushes:
                 tup = deref_val(ex, st, pushes[0][1][1])
                 if isinstance(tup, Agg) and len(tup.fields) == 2:
                     s_out, semi_out = deref_val(ex, st, tup.fields[0]), deref_val(ex, st, tup.fields[1])
                     same_stmt = isinstance(s_out, Lazy) and s_out.oid == X.oid
-                    semi_src = ex.lazy_tab.get((item.oid, ("field", 1)))
                     same_semi = same_option(ex, st, semi_out, semi_src)
                     ok = z3.And(z3.BoolVal(same_stmt), same_semi)
                     what = ("statement rebuilt" if not same_stmt else "") + (" semicolon changed/dropped" if not z3.is_true(z3.simplify(same_semi)) else "")
             pc = list(o.pc) + [z3.ULT(d, z3.BitVecVal(3, 64))]
             if ses.reachable(pc + [d != normal]):
                 r, m = ses.obligation(f"format_block/stmt/path{pi}/untouched-when-not-normal", pc + [d != normal], z3.Not(ok),
-                                      "Skip/NotInRange statement pushed as returned by format_stmt, with its own semicolon")
+                                      "Skip/NotInRange (judged on the original statement) => pushed as returned by format_stmt, with its own semicolon")
                 if r == "sat":
                     which = T.name("FormatNode", m.eval(d, model_completion=True).as_long())
                     flagged.append((f"format_block/stmt/path{pi}/untouched-when-not-normal", f"{which} statement: {what.strip()}", "both",
                                     {"which": which, "what": what.strip()}))
+            # the converse: a Normal statement goes through the semicolon handling (its old `;` token is never kept as it was)
+            if semi_src is not None:
+                had = ex.discr(st, semi_src) == 1
+                pcn = pc + [d == normal, had]
+                if ses.reachable(pcn):
+                    r, m = ses.obligation(f"format_block/stmt/path{pi}/normal-statement-is-post-processed", pcn, same_semi,
+                                          "Normal statement with a `;`: the semicolon is removed or re-created, not copied with its old trivia")
+                    if r == "sat":
+                        flagged.append((f"format_block/stmt/path{pi}/normal-statement-is-post-processed",
+                                        "a statement that should be formatted is treated as ignored / out of range by format_block", "both",
+                                        {"which": "Normal", "what": "post-processing skipped"}))
         # last statement
         lfmt = find_calls(o.trace, lambda x: x.split("::")[-1] == "format_last_stmt")
         wl = find_calls(o.trace, lambda x: x.endswith("Block::with_last_stmt"))
         if lfmt and len(tog) >= 1 and wl:
             ctxl = tog[-1][2]
             XL = lfmt[0][2]
-            d = ex.discr(st, M.sfn(ex, ctxl, XL))
+            d = ex.discr(st, M.sfn(ex, ctxl, ex.lazy_child(st, last_item, ("field", 0), "LastStmt", ".0")))
             arg = deref_val(ex, st, wl[0][1][1])
             ok, what = False, "last statement not returned"
             if isinstance(arg, Agg) and arg.variant == "Some":
